@@ -59,6 +59,14 @@ FAMILIES = {
         "n": {"quick": 60, "thorough": 1500},
         "shard": 8, "procs": 4,
     },
+    "crash": {
+        "family": "crash",
+        "coq_modules": ["Json", "Crc", "Hlc", "Kv", "Store", "Trace", "Corr"],
+        "in_type": "scase", "obs_type": "crash_obs",
+        "corr": "crash_corr_ok", "chk": "chk_crash", "model": "crash_model",
+        "n": {"quick": 48, "thorough": 1200},
+        "shard": 4, "procs": 8,
+    },
     "ttl": {
         "family": "ttl",
         "coq_modules": ["Json", "Crc", "Hlc", "Kv", "Store", "Trace", "Corr"],
@@ -108,6 +116,12 @@ PROPS = {
     "C07": _kv("C07", "Full proof on the model: an xattr-only write changes exactly the named xattrs and keeps body, datatype and (unless given) expiry; a body-only write to a live document keeps its xattrs; a failed call changes nothing (C07_holds; frame lemmas over apply_xattrs / xattrs_remove for all xattr maps and name lists). Macro expansion values are compared exactly by the correspondence (CAS string and CRC32c computed in Coq)."),
     "C08": _kv("C08", "Sequential part proved in full on the model: every successful CAS-stamping call posts exactly one event equal to the rendering of the document as stored (key, opcode, body, xattrs, datatype bits, CAS, expiry, revision), every failed/refused call and every touch posts none (C08_holds, all histories). Ordering part: Feed.v splits a write into Commit / Snapshot / Push and a feed into Backfill / Register / Deliver / Stop as the code does; the full statement (every interleaving keeps CAS order) is REFUTED on the faithful model with a replayable witness (C08_order_refuted: the known finding KF-C08-order, reproduced on the code by the sched family through the cas.beforePost / post.snapshot hooks), and every schedule outside that window is checked: the sched family executes generated action lists on the real code under the hooks and compares deliveries, CAS values and checkpoints exactly with the model.", extra=[{"family": "sched", "chk": "sched_excused_C08", "strict_chk": "sched_strict_C08"}]),
     "C09": _kv("C09", "Sequential part proved on the model's store: the backfill of a feed started from CAS s is, in CAS order, exactly the current version of every document of the collection (tombstones included) with CAS >= s (C09_complete, C09_sorted, C09_from_start, for every reachable store: C09_tables_ok), each rendered by the same function as live events (C09_same_rendering, C09_live_equals_stored). The executable trace checker (dump feeds from generated start CAS values: 0, a document's CAS, CAS+1, stale, beyond) is evaluated on implementation traces and on the model's traces; that it accepts every model trace is checked by evaluation, not proved. No-gap half: the full statement is REFUTED on the faithful interleaving model Feed.v with a replayable witness (C09_gap_refuted: the known finding KF-C09-gap, a write committing between the backfill query and registration that reads the feed list before registration), reproduced on the code by the sched family through the feed.preregister / post.snapshot hooks; every schedule outside that window (e.g. a write that commits in the window but posts after registration) is compared exactly with the model: partial.", model_chk=True, extra=[{"family": "sched", "chk": "sched_excused_C09", "strict_chk": "sched_strict_C09"}]),
+    "C10": {
+        "families": [{"family": "crash"}],
+        "level_text": "Partial. In the model every call is one step (document row, bucket and collection high-water marks, revision number, view invalidation change together), and a reopen keeps documents, collections, design documents and the high-water mark, seeds the clock at or above it and re-arms the expiry timer (C10_reopen_preserves, C10_reopen_rearms_expiry, proved). That a call really is one SQLite transaction, and that SQLite's commit is atomic and durable under process kill, is assumed; the crash family checks it: a child process runs a generated history (all KV/xattr/subdoc entry points, purge, collection create/drop, design documents) on an on-disk bucket under a scripted clock and SIGKILLs itself at the n-th occurrence of a hook point (transaction begun, before commit, after commit, between the document write and the lastCas update, before the event is posted); a fresh process reopens the bucket and the complete read-back (every key of every collection through GetRaw/GetExpiry/GetWithXattrs/Exists and a dump feed, collection list, design documents, UUID, armed expiry) must equal the model's state for the acknowledged prefix, plus the interrupted call iff the kill came after its commit.",
+        "level_note": "Kill = SIGKILL of the process, not power loss: the OS page cache survives, so fsync behaviour is not exercised. Timer firings (multi-transaction sweeps) are excluded from crash histories. Trusted: Coq kernel + vm_compute, Go harness, SQLite.",
+        "assumptions": ["SQLite commits atomically and durably with respect to process kill (WAL mode)", "every mutating call is one transaction (checked by the kill points, not proved)", "the child's scripted clock and the recorded wall-clock second of each step stand for time in the model"],
+    },
     "C11": _kv("C11", "Proved on the model's store for every reachable store and every entry point: a call addressed to collection c leaves documents, backfill, identity and feeds of every other collection unchanged (C11_frame); DropDataStore removes exactly the collection's rows and entry (C11_drop); re-creation yields a fresh id with no documents (C11_recreate). Views and SQL queries of other collections are covered under C12/C19 models. The executable trace checker is evaluated on implementation and model traces (acceptance of model traces checked by evaluation).", model_chk=True),
     "C18": _kv("C18", "Proved on Json.v for all documents, paths and values: a sub-document write leaves every property on a diverging path unchanged (C18_frame), the addressed property reads back as the written value (C18_set) or as absent after removal (C18_remove); CAS honoured / failure changes nothing is the C02 theorem (C18_cas). The trace checker restates WriteSubDoc/SubdocInsert/GetSubDocRaw as upsert_path/eval_path over the parsed read-back and is evaluated on implementation and model traces (acceptance of model traces checked by evaluation). The concurrent no-lost-update half is part of the interleaving model: partial.", model_chk=True),
     "C13": {
